@@ -35,6 +35,7 @@ C07_Distinct(k) == (Obs[k].accepted /\ Accepts(Obs[k].raw) /\ ~Obs[k].main_modul
 C09_Reconstruct(o) == o.accepted => o.recon_eq
 C09_ListedOnce(o) == o.accepted => /\ o.ran /\ o.listed_own = 1 /\ o.listed_elsewhere = 0
                                     /\ o.listed_key_ok /\ o.listed_meta_ok /\ o.listed_loads_stored
+                                    /\ o.relisted_meta_ok      \* (sampled) listed again after forked workers rewrote the entry
 DriftSer(o) == (o.accepted /\ Accepts(o.raw)) => o.ser = Ser(B(o))
 
 Fails(k) ==
